@@ -259,20 +259,8 @@ Definition sweep (f : list nat -> list (list nat) -> list nat -> assignment) (P 
 Definition small_sizes : list (nat * nat) :=
   [(1,1); (1,2); (1,3); (1,4); (2,1); (2,2); (2,3); (2,4); (3,1); (3,2); (3,3); (4,1); (4,2); (4,3)].
 
-Lemma sweep_small : forallb (fun pc => sweep reassign_abs (fst pc) (snd pc)) small_sizes = true.
-Proof. vm_compute. reflexivity. Qed.
-
-Theorem reassign_ok_bounded : forall P C cur orders best,
-  In (P, C) small_sizes ->
-  In cur (lists C (seq 0 P)) -> In orders (lists P (perms (seq 0 C))) -> In best (compositions P C) ->
-  reassign_ok (reassign_abs cur orders best) best = true.
-Proof.
-  intros P C cur orders best HPC Hcur Hord Hbest.
-  pose proof sweep_small as H. rewrite forallb_forall in H. specialize (H (P, C) HPC). cbn [fst snd] in H.
-  unfold sweep in H. rewrite forallb_forall in H. specialize (H cur Hcur).
-  rewrite forallb_forall in H. specialize (H orders Hord).
-  rewrite forallb_forall in H. exact (H best Hbest).
-Qed.
+(* the bounded sweep that used to be proved here (sweep reassign_abs on small_sizes, by vm_compute) is superseded by
+   the general theorem reassign_total of Proofs/ReassignGen.v; `sweep` stays as an executable sanity definition *)
 
 (* the pinned upstream algorithm fails already on 2 precisions x 2 channels *)
 Lemma reassign_v0_refuted : exists scores best,
